@@ -5,10 +5,10 @@ dst=/verif/harness/priv-main
 rm -rf "$dst"; mkdir -p "$dst"
 git -C /verif archive HEAD harness | tar -x -C "$dst" --strip-components=1
 cd /verif/harness
-for f in Cargo.toml src/*.rs src/genp/prog.rs src/genp/arb.rs src/genp/wild.rs  src/genp/ic.rs src/genp/asyncp.rs src/genp/limits.rs src/genp/weak.rs src/genp/order.rs src/props/mod.rs src/props/c0[1-8].rs src/props/c09.rs src/genp/gcgen.rs src/genp/gcops.rs src/props/c10.rs src/props/c11.rs src/genp/c11ctor.rs src/genp/c11js.rs src/genp/c11model.rs src/props/c12.rs src/props/c13.rs src/props/c15.rs src/genp/ta.rs src/props/c16.rs src/props/c18.rs src/genp/json.rs src/props/c19.rs src/props/c20.rs; do
+for f in Cargo.toml src/*.rs src/genp/prog.rs src/genp/arb.rs src/genp/wild.rs  src/genp/ic.rs src/genp/asyncp.rs src/genp/limits.rs src/genp/weak.rs src/genp/order.rs src/props/mod.rs src/props/c0[1-8].rs src/props/c09.rs src/genp/gcgen.rs src/genp/gcops.rs src/props/c10.rs src/props/c11.rs src/genp/c11ctor.rs src/genp/c11js.rs src/genp/c11model.rs src/props/c12.rs src/props/c13.rs src/props/c14.rs src/genp/arr.rs src/props/c15.rs src/genp/ta.rs src/props/c16.rs src/props/c18.rs src/genp/json.rs src/props/c19.rs src/props/c20.rs; do
   [ -f "$f" ] && cp "$f" "$dst/$f"
 done
-printf "pub mod arb;\npub mod asyncp;\npub mod c11ctor;\npub mod c11js;\npub mod c11model;\npub mod gcgen;\npub mod gcops;\npub mod ic;\npub mod json;\npub mod limits;\npub mod order;\npub mod prog;\npub mod ta;\npub mod weak;\npub mod wild;\n" > "$dst/src/genp/mod.rs"
+printf "pub mod arr;\npub mod modgraph;\npub mod arb;\npub mod asyncp;\npub mod c11ctor;\npub mod c11js;\npub mod c11model;\npub mod gcgen;\npub mod gcops;\npub mod ic;\npub mod json;\npub mod limits;\npub mod order;\npub mod prog;\npub mod ta;\npub mod weak;\npub mod wild;\n" > "$dst/src/genp/mod.rs"
 cd "$dst"
 export CARGO_NET_OFFLINE=true CARGO_TARGET_DIR=/verif/harness/target
 cargo build 2>&1 | grep -E '^(error|warning: unused)' -A14 | head -80
